@@ -137,7 +137,14 @@ type URI struct {
 // ParseURI parses a STUN or TURN urls following the ABNF syntax described in
 // https://tools.ietf.org/html/rfc7064 and https://tools.ietf.org/html/rfc7065
 // respectively.
-func ParseURI(raw string) (*URI, error) { //nolint:gocognit,cyclop
+func ParseURI(raw string) (*URI, error) {
+	return parseURI(raw, true)
+}
+
+// parseURI implements ParseURI. If the address has no port and
+// retryWithDefaultPort is set, it is parsed once more with the default port
+// of the scheme appended.
+func parseURI(raw string, retryWithDefaultPort bool) (*URI, error) { //nolint:gocognit,cyclop
 	rawParts, err := url.Parse(raw)
 	if err != nil {
 		return nil, err
@@ -153,7 +160,7 @@ func ParseURI(raw string) (*URI, error) { //nolint:gocognit,cyclop
 	if uri.Host, rawPort, err = net.SplitHostPort(rawParts.Opaque); err != nil { //nolint:nestif
 		var e *net.AddrError
 		if errors.As(err, &e) {
-			if e.Err == "missing port in address" {
+			if e.Err == "missing port in address" && retryWithDefaultPort {
 				nextRawURL := uri.Scheme.String() + ":" + rawParts.Opaque
 				switch {
 				case uri.Scheme == SchemeTypeSTUN || uri.Scheme == SchemeTypeTURN:
@@ -162,14 +169,14 @@ func ParseURI(raw string) (*URI, error) { //nolint:gocognit,cyclop
 						nextRawURL += "?" + rawParts.RawQuery
 					}
 
-					return ParseURI(nextRawURL)
+					return parseURI(nextRawURL, false)
 				case uri.Scheme == SchemeTypeSTUNS || uri.Scheme == SchemeTypeTURNS:
 					nextRawURL += ":5349"
 					if rawParts.RawQuery != "" {
 						nextRawURL += "?" + rawParts.RawQuery
 					}
 
-					return ParseURI(nextRawURL)
+					return parseURI(nextRawURL, false)
 				}
 			}
 		}
